@@ -1048,9 +1048,40 @@ func (bp *boundsProver) transparent(fn *ssa.Function) *transparentInfo {
 		ti.updates = append(ti.updates, transUpdate{fk, d})
 	}
 	ret := b.Instrs[len(b.Instrs)-1].(*ssa.Return)
-	if len(ret.Results) == 1 && (isStringType(ret.Results[0].Type()) || kindOf(ret.Results[0].Type()) == KSlice) && len(stores) == 0 {
+	if len(ret.Results) == 1 && (isStringType(ret.Results[0].Type()) || kindOf(ret.Results[0].Type()) == KSlice) {
 		l := cfb.lenOf(ret.Results[0], ret, 0)
-		ti.retLen = &l
+		if len(stores) > 0 {
+			// a field read back after its (single) update is the entry value plus the delta
+			perField := map[string]int{}
+			for _, u := range ti.updates {
+				perField[u.fk.Field]++
+			}
+			res := linConst(0)
+			res.k.Set(l.k)
+			okAll := true
+			for v, c := range l.c {
+				repl := linVar(v)
+				if strings.HasPrefix(v, "mem(") && !strings.HasSuffix(v, "@entry)") {
+					okAll = false
+					for _, u := range ti.updates {
+						pre := fmt.Sprintf("mem(%s.%s@", ssaName(fn.Params[0]), u.fk.Field)
+						if strings.HasPrefix(v, pre) && perField[u.fk.Field] == 1 {
+							repl = linVar(pre + "entry)").add(u.delta)
+							okAll = true
+						}
+					}
+					if !okAll {
+						break
+					}
+				}
+				res = res.add(repl.scale(c))
+			}
+			if okAll {
+				ti.retLen = &res
+			}
+		} else {
+			ti.retLen = &l
+		}
 	}
 	if len(ti.updates) == 0 && ti.retLen == nil {
 		// a pure getter of a scalar (peekByte): nothing to summarise, but still transparent
